@@ -151,6 +151,16 @@ class StubCtx:
         self.n_steps += 1
         i = self.n_steps
         self.calls.append(("step", i, None if in_token is None else bytes(in_token), self._complete))
+        slow = self.cfg.get("slow_step")
+        if slow and int(slow[0]) == i:
+            # this leg takes a while (a slow KDC, a credential prompt): told to whoever runs the job (the simulated executor)
+            try:
+                from simworld import world as _w
+
+                if _w.CURRENT is not None:
+                    _w.CURRENT.executor_job_seconds = float(slow[1])
+            except Exception:  # noqa: BLE001
+                pass
         if self._complete:
             self.step_after_complete += 1
             raise StubCtxError("step() on a complete context")
